@@ -32,12 +32,13 @@ def _models(tier, seed):
   combos = [((-1,), ('F',), True), ((-1,), ('H',), True), ((-1,), ('SH',), True),
             ((-1, 0), ('F', 'H'), True), ((-1,), ('HHH',), True),
             ((-1, 0), ('SS', 'H'), True), ((-1, 0), ('F', 'SSH'), True),
+            ((-1,), ('SSS',), True),
             ((-1,), ('HS',), False), ((-1,), ('HSH',), False),
             ((-1, 0), ('F', 'SHS'), False)]
   if tier != 'quick':
     combos += [((-1, 0, 1), ('F', 'HH', 'S'), True),
                ((-1, 0, 0), ('H', 'H', 'SH'), True),
-               ((-1, -1), ('S', 'F'), True), ((-1,), ('SSS',), True),
+               ((-1, -1), ('S', 'F'), True),
                ((-1, 0), ('HH', 'HHH'), True), ((-1, 0), ('SHH', 'HS'), False),
                ((-1, 0, 1), ('HS', 'SH', 'H'), False)]
   out = []
